@@ -1,4 +1,5 @@
 import Amqp.Lemmas.Confirm
+import Amqp.Lemmas.Rpc
 import Amqp.Gen.Skel
 /-!
 # C13 — publisher confirms report the outcome of exactly the published message
@@ -115,6 +116,50 @@ theorem confirm_error_at_entry (mandatory : Bool) (s : St) (sched : List (List E
   rw [h]
 
 /-! ## Tie obligations -/
+/-! ## Several threads publishing on one confirming channel
+
+The transition system of C05 (`Amqp.Rpc`: any number of caller threads serialised by `rpc.lock`, the reader, a
+broker that answers the oldest outstanding request and may send other frames at any time), instantiated with
+callers that register `Basic.Ack`/`Basic.Nack` — confirm publishers — and a broker whose unprompted frames are
+anything but those two (deliveries, returns, cancels, flow). -/
+
+/-- the frames a broker in this model may send unprompted on a confirming channel -/
+def unprompted : List String :=
+  ["Basic.Deliver", "Basic.Return", "Basic.Cancel", "Channel.Flow", "ContentHeader", "ContentBody", "Channel.Close"]
+
+/-- every action of the run is a confirm publisher's or the broker's -/
+def PublishersOnly (as : List Rpc.Act) : Prop :=
+  ∀ a ∈ as, match a with
+    | .register _ names => names = confirmNames
+    | .unsolicited f => f.name ∈ unprompted
+    | _ => True
+
+/-- **each caller gets the outcome of its own message**: whatever the number of publishing threads and the
+    schedule, the Ack/Nack a publisher takes is the broker's answer to *its* publish (`tag` = the identity the
+    broker echoes), and no unprompted frame is ever taken for a confirm -/
+theorem publishers_each_get_own_confirm (as : List Rpc.Act) (s : Rpc.S) (hp : PublishersOnly as)
+    (hr : Rpc.run Rpc.init as = some s) : ∀ p ∈ s.taken, p.2.tag = p.1 ∧ p.2.reply = true := by
+  have hok : ∀ a ∈ as, Rpc.ActOk unprompted a := by
+    intro a ha
+    have := hp a ha
+    cases a with
+    | register t names =>
+      simp only at this; subst this
+      intro n hn
+      simp [confirmNames] at hn
+      rcases hn with rfl | rfl <;> decide
+    | unsolicited f => exact this
+    | _ => trivial
+  exact (Rpc.run_inv_of_ok unprompted as s hok hr).taken
+
+/-- non-vacuity: two publishers, a delivery in between, the second one nacked -/
+example : (Rpc.run Rpc.init
+    [.acquire 1, .register 1 confirmNames, .send 1, .unsolicited { name := "Basic.Deliver", tag := 9, reply := false },
+     .reply [{ name := "Basic.Ack", tag := 0, reply := true }], .dispatch, .dispatch, .take 1, .remove 1, .release 1,
+     .acquire 2, .register 2 confirmNames, .send 2, .reply [{ name := "Basic.Nack", tag := 1, reply := true }], .dispatch,
+     .take 2, .remove 2, .release 2]).map (fun s => (s.taken.map (fun p => (p.1, p.2.name)), s.handled.map (·.name))) =
+    some ([(0, "Basic.Ack"), (1, "Basic.Nack")], ["Basic.Deliver"]) := by decide
+
 theorem gen_flags : Gen.RpcWait.defersMessageError = true ∧ Gen.RpcWait.deferralRequiresOpen = true ∧
     Gen.RpcWait.keepsDeferredError = true ∧
     Gen.ChanErr.closeReasonAtFront = true := by decide
